@@ -132,6 +132,12 @@ def tiers(tier, seed):
             cfg = dict(E.DEFAULTS)
             cfg.update(v)
             add(sh, cfg)
+    # shapes that matter for one mechanism only: fewer configurations
+    for sh, vs in EXTRA_SHAPES():
+        for v in vs:
+            cfg = dict(E.DEFAULTS)
+            cfg.update(v)
+            add(sh, cfg)
     fixed = len(jobs)
     for sh in pool:
         cfg = dict(E.DEFAULTS)
@@ -166,6 +172,16 @@ def FIXED_SHAPES():
         # orthogonal region nested directly in an orthogonal region, and an anonymous resumable head
         P('(C h1 i0 composite (L i0) (C h1 i0 composite (C h1 i0 composite (L i0) (L i0)) (L i0)) '
           '(O h1 i0 (O h1 i0 (L i0) (L i0)) (C h0 i0 resumable (L i0) (L i0))))'),
+    ]
+
+
+def EXTRA_SHAPES():
+    P = S.parse
+    return [
+        # orthogonal regions of exactly 8 sub-states (a whole unit of the request bits) followed / preceded by another
+        # orthogonal region: unit arithmetic of BitArray views inside the registry
+        (P('(C h1 i0 composite (L i0) (O h1 i0 (L i0) (L i0)) (O h1 i0 (L i0) (L i0) (L i0) (L i0) (L i0) (L i0) (L i0) (L i0)))'),
+         [dict(), dict(bottomup=1, manual=1, log=2)]),
     ]
 
 
